@@ -11,7 +11,8 @@ RULE = ("fault space enumerated: worker w in 0..k-1 x k in {1,2,3,4} x death poi
         "caller that polls gets 60 s after the last worker's death. returned => sub-multiset of the sequential "
         "results containing everything the survivors deliver; raised => accepted. Second grid: the victim dies, a "
         "survivor's message arrives after the death, then all survivors are alive and silent for 70 s (long refutation / "
-        "blocked put): the caller must return or raise within 25 s of the death (the repaired code needs ~2 s). distinct = distinct fault cases; "
+        "blocked put): the caller must return or raise within 25 s of the death (the repaired code needs ~2 s). Third grid: "
+        "SIGKILL of a worker while the consumer is slow (full pipe), with solution messages below and far above PIPE_BUF. distinct = distinct fault cases; "
         "all are non-trivial")
 
 
@@ -29,6 +30,13 @@ def main(tier, seed):
                  {"tier": tier, "chunk": c, "nchunks": sil, "limit": 1 if q else None, "seed": seed},
                  mode="interp" if c % 2 else "jit", timeout=400 if q else 2400, tag="silent:%d" % c, stall_s=200)
              for c in range(sil)]
+    # a kill while the consumer is slow, with messages below and far above PIPE_BUF (one case per job: a blocked caller thread
+    # stays behind in the child)
+    from framework.props.mpfamily import midwrite_grid
+
+    for i, c in enumerate(midwrite_grid(tier)):
+        jobs.append(Job("framework.props.mpfamily", "run_mp_midwrite", {"cases": [c]}, mode="jit",
+                        timeout=400, tag="midwrite:%d" % i, stall_s=200))
     common.run_jobs(jobs)
     distinct = set()
     grid = 0
@@ -57,6 +65,7 @@ def main(tier, seed):
     rep.counters["fault_grid_size"] = grid
     rep.exhaustive = (not q) and rep.evaluations >= grid
     rep.need("silent_survivor.cases", 10, "death followed by a late message and silent survivors")
+    rep.need("midwrite.cases", 4, "kills under a slow consumer")
     if und:
         rep.inconclusive.append("%d fault cases hit the wall-clock cap with workers still alive: %r" % (
             len(und), und[:3]))
